@@ -251,8 +251,13 @@ def _init_unit(estimands, policy, name, prepared=False):
         rw = z3.If(matched, rw_spec, 0) if policy == "zero" else rw_spec
 
         def rpd(ev):
-            if not (ev(s["inBase"]) and ev(matched)):
+            if not ev(s["inBase"]):
                 return None
+            if not ev(matched):
+                # the counter-model's unit is a baseline unit that is absent from the feed: the replay's election always holds
+                # such a unit (F_absent); its matched unit gets ordinary values
+                unit_ = dict(baseline_turnout=100.0, baseline_dem=50.0, baseline_gop=40.0, results_turnout=80.0, results_dem=40.0, results_gop=30.0, pev=100.0)
+                return {"target": "verif_replays:derived_quantities_replay", "args": [unit_, policy, list(estimands), bool(prepared)], "check": "result['exc'] is None and result['ok']"}
             unit_ = {k: float(ev(s[k])) for k in ("baseline_turnout", "baseline_dem", "baseline_gop", "results_turnout", "results_dem", "results_gop")}
             unit_["pev"] = float(ev(s["percent_expected_vote"]))
             return {"target": "verif_replays:derived_quantities_replay", "args": [unit_, policy, list(estimands), bool(prepared)], "check": "result['exc'] is None and result['ok']"}
